@@ -876,7 +876,11 @@ func c34Conn(kind string, a [][]byte) *Case {
 					rest, _ := io.ReadAll(br)
 					_, raw, ok := c34SplitHead(rest)
 					if ok && len(raw) > e.decl {
-						return Verdict{VSpec, "fixed-overrun", fmt.Sprintf("response %d: Content-Length %d, stream produced %d: %d bytes on the wire after the head", k, e.decl, len(e.body), len(raw))}
+						key := "fixed-overrun"
+						if len(e.body) <= e.decl {
+							key = "fixed-extra-bytes"
+						}
+						return Verdict{VSpec, key, fmt.Sprintf("response %d: Content-Length %d, stream produced %d: %d bytes on the wire after the head", k, e.decl, len(e.body), len(raw))}
 					}
 					if len(res.Dispatches) > k+1 {
 						return Verdict{VSpec, "continued-after-failed-stream", fmt.Sprintf("response %d failed (declared %d, produced %d) but request %d was still served", k, e.decl, len(e.body), k+1)}
@@ -1031,7 +1035,7 @@ func init() {
 			return nil
 		},
 		Gen: func(r *Rand, tier string, emit func(string, ...[]byte)) {
-			n := 1500
+			n := 1000
 			if tier == "thorough" {
 				n = 20000
 			}
